@@ -69,7 +69,7 @@ Definition fx_ctx : ctx nat (list nat) (list nat) nat (list (nat * list nat)) :=
               | _ => [] end)
     (fun _ _ st => Ok (true, st)) (fun t => Nat.eqb t 0) 0 (fun l => l) (fun _ => [])
     (fun d => Z.of_nat (length d)) (fun d _ => d) (map fst) (fun f c => od_getitem Nat.eqb f c) (fun l => l) (fun l => l)
-    (fun t => Z.of_nat t) (fun _ _ => 0%Z).
+    (fun _ _ => Raise KeyError) (fun t => Z.of_nat t) (fun _ _ => 0%Z).
 Example C08_example :
   exists ts w, VT_init fx_ctx (VT_blank fx_ctx) [0; 1; 2] [] = Ok (tt, ts, w) /\
     NoDup (frame_columns fx_ctx [(7, [1; 2]); (5, [11])]) /\
